@@ -294,6 +294,21 @@ def impl_table(case):
             s.create_numeric(o, "zo", "int32").data.write(np.array([1] * len(case["old_ids"]), dtype="int32"))
             s.create_numeric(n, "zn", "int32").data.write(np.array([2] * len(case["new_ids"]), dtype="int32"))
         names = ["id"] + ["c%d" % ci for ci in range(len(cols))] + (["zo", "zn"] if case.get("extra") else [])
+        if case.get("_n", 0) % 4 == 2 and cols and case["new_ids"] and not case.get("drop_old") and not case.get("drop_new"):
+            # a refused call on the same objects first: a snapshot whose last column is one row short (journal_table raises);
+            # the valid call below, into the same result frame, must not notice
+            import copy
+            bad = copy.deepcopy(cols)
+            bad[-1]["n"] = bad[-1]["n"][:-1]
+            nb = ds.create_dataframe("nb")
+            _write_table(e, nb, case["new_ids"], [99.0] * len(case["new_ids"]), bad, "n", kd)
+            try:
+                journal.journal_table(s, _Schema(names), o, nb, "id", r)
+                refused = False
+            except Exception:  # noqa
+                refused = True
+            if not refused:                         # tolerated (nothing differed in the missing row): start from a fresh frame
+                r = ds.create_dataframe("r2")
         journal.journal_table(s, _Schema(names), o, n, "id", r)
         out = []
         for ci, c in enumerate(cols):
